@@ -46,7 +46,9 @@ Bases ==
     THEN << TcpLine("TCP4", "1.2.3.4", "5.6.7.8", "0", "65535"),
             TcpLine("TCP6", "::1", "::ffff:1.2.3.4", "443", "80"),
             UnknownLine(<< >>),
-            UnknownLine(B(" a b c d e f")) >>
+            UnknownLine(B(" a b c d e f")),
+            UnknownLine(B("  two  spaces ")),
+            UnknownLine(Pad(92)) >>      \* 107 bytes: the limit
     ELSE << TcpLine("TCP4", "1.2.3.4", "5.6.7.8", "0", "65535"),
             TcpLine("TCP4", "255.255.255.255", "0.0.0.0", "443", "80"),
             TcpLine("TCP6", "::1", "::ffff:1.2.3.4", "443", "80"),
@@ -56,6 +58,7 @@ Bases ==
             UnknownLine(B(" ")),
             UnknownLine(B(" a b c d e f")),
             UnknownLine(B(" \n b")),
+            UnknownLine(B("  two  spaces ")),
             UnknownLine(B(" h") \o EAcute \o B(" ") \o Euro),
             UnknownLine(Pad(90)),       \* 105 bytes
             UnknownLine(Pad(92)),       \* 107 bytes: the limit
